@@ -109,6 +109,7 @@ type Path struct {
 	funcsSeen map[*ssa.Function]int
 	locs map[string]*Cell
 	spec *specState
+	jsonEq int
 	merges int
 }
 
